@@ -335,8 +335,10 @@ class Inliner:
                     not any(isinstance(n, ast.Name) and n.id == '__RET__' for st_ in new_body[:-1] for n in ast.walk(st_)):
                 mapping[last.value.id] = tgt
                 new_body = new_body[:-1]
-        mod = ast.Module(body=pre + new_body, type_ignores=[])
+        # the argument expressions belong to the caller's scope: only the helper's body is renamed
+        mod = ast.Module(body=new_body, type_ignores=[])
         mod = _Rename(mapping).visit(mod)
+        mod.body = pre + mod.body
         for st in mod.body:
             ast.copy_location(st, call)
         ast.fix_missing_locations(mod)
